@@ -122,7 +122,11 @@ func genC37(t *rapid.T) c37Case {
 				continue
 			}
 			used[ln] = true
-			sp.labels = append(sp.labels, [2]string{ln, rapid.SampledFrom(c37LabelValues).Draw(t, "lvalue")})
+			lv := rapid.SampledFrom(c37LabelValues).Draw(t, "lvalue")
+			if tv := c.Target.Map()[ln]; tv != "" && chance(t, "same_as_target", 1, 4) {
+				lv = tv // the target exposes the very value the server would attach
+			}
+			sp.labels = append(sp.labels, [2]string{ln, lv})
 		}
 		sp.ts = tsNames[sp.name]
 		pool = append(pool, sp)
@@ -473,9 +477,9 @@ func runC37(c c37Case, r *ev.Rec) error {
 		}
 		if quirkErr == nil {
 			if _, e := quirk.step(&c, sc, T, bodyLen, obs); e != nil {
-				quirkErr = fmt.Errorf("scrape %d: %v", i, e)
+				quirkErr = fail(i, fmt.Sprintf("scrape %d: the committed samples differ from the model", i), e, tr)
 				if c37Trace {
-					fmt.Printf("   VARIANT MODEL FAILS: %v\n", quirkErr)
+					fmt.Printf("   VARIANT MODEL FAILS: scrape %d: %v\n", i, e)
 				}
 			}
 		}
@@ -503,7 +507,9 @@ func runC37(c c37Case, r *ev.Rec) error {
 			}
 		}
 		if quirkErr == nil {
-			quirkErr = quirk.endOfRun(obs)
+			if e := quirk.endOfRun(obs); e != nil {
+				quirkErr = fail(len(c.Scrapes), "target removal: the committed samples differ from the model", e, tr)
+			}
 		}
 	}
 
@@ -536,7 +542,11 @@ func runC37(c c37Case, r *ev.Rec) error {
 		return ev.FailSig(c37KnownPartial, "[the observation equals the model variant %q]\n%v", c37KnownPartial, strictErr)
 	}
 	if quirk.partialSeen && quirkErr != nil {
-		return ev.Failf("%v\n (not explained by the known deviation %q either: %v)", strictErr, c37KnownPartial, quirkErr)
+		// The history contains a failed scrape with a partially appended body: from there on the
+		// strict model is off by the known deviation. The history was judged by the variant model
+		// that reproduces that one deviation - and it differs from that one too.
+		first := strings.SplitN(strictErr.Error(), "\n config:", 2)[0]
+		return ev.Failf("[judged by the model variant of the known deviation %q, because an earlier scrape failed after a part of its body was appended]\n%v\n (the strict model differs earlier, in the way of that known deviation: %s)", c37KnownPartial, quirkErr, first)
 	}
 	return ev.Failf("%v", strictErr)
 }
